@@ -171,7 +171,10 @@ def render_directive(d, root, variant=0):
         return d["cmd"]
     path = _join(p["dir"], p["name"])
     if p["k"] == "abs":
-        path = root + "/" + path
+        # an absolute path names the same file however it is spelled: plain, with a doubled slash, through '.', through 'dir/..'
+        # (the first directory of the path exists: the harness creates the parents of every expected output)
+        sep = ["/", "//", "/./", "/" + p["dir"][0] + "/../" if p["dir"] else "/./"][(variant // 4) % 4]
+        path = root + sep + path
     line = f'{d["cmd"]} "{path}"'
     if d["tape"]["k"] == "text":
         line += f', "{d["tape"]["text"]}"'
